@@ -173,6 +173,10 @@ def run(ctx, R, tier):
             ends = [n for st in H.body for n in walk_no_nested(st) if isinstance(n, ast.Raise)]
             R.check(bool(ends) and all(e.exc is None for e in ends), "C03-R2", "_pyroInvoke|handler-reraises", "the handler re-raises the error",
                     f.loc(H), "the handler swallows or replaces the communication error")
+        else:
+            R.fail("C03-R2", "_pyroInvoke|release-on-every-path", "every path through the handler calls self._pyroRelease() before leaving", f.loc(region),
+                   "no handler catches the whole CommunicationError family, so e.g. a timeout or a protocol error leaves the used connection on the proxy: the next call reads this call's late reply")
+            R.fail("C03-R2", "_pyroInvoke|handler-reraises", "the handler re-raises the error", f.loc(region), "no handler for the CommunicationError family")
     rel_fn = ctx.fn("Pyro5.client.Proxy._pyroRelease")
     closes = [c for c in ctx.calls_to(rel_fn, "Pyro5.socketutil.SocketConnection.close") if unparse(c.func) == "self._pyroConnection.close"]
     forgets = [st for st, t, k in stores_in(rel_fn.node) if k == "assign" and unparse(t) == "self._pyroConnection"
